@@ -73,6 +73,9 @@ def extra_run_pairs(man, tier, seed):
         # with products of the hyper-parameters (same rule as C05's "posterior of no data = prior")
         mag = sum(abs(float(v)) for v in (pvs[b] if isinstance(pvs[b], (list, tuple)) else [pvs[b]])
                   if isinstance(v, (int, float)) and not isinstance(v, bool)) + 1.0
+        # a tiny hyper-parameter amplifies the cancellation error relative to itself (ln s with s = 1e-3): include reciprocals
+        mag += sum(1.0 / abs(float(v)) for v in (pvs[b] if isinstance(pvs[b], (list, tuple)) else [pvs[b]])
+                   if isinstance(v, (int, float)) and not isinstance(v, bool) and v != 0)
         if not (abs(m_empty) <= 1e-9 + 1e-15 * mag ** 3):
             failures.append({'site': f'{prior}.ln_m', 'case': lines[b + 4], 'impl': repr(m_empty), 'expected': '0', 'observed': 'value',
                              'detail': 'ln_m of no data'})
